@@ -272,6 +272,15 @@ def minmax_cases(*values, limit=6):
                     continue
                 c, q = d.content()
                 groups.setdefault(q.key, []).append((a, 1 if c > 0 else -1))
+            elif is_app(a, ('where', 'ifexp')) and len(a[2]) == 3 and all(isinstance(x, Poly) for x in a[2]):
+                # a selection on a comparison of two integers: where(x <= y, p, q) is p in the case x - y <= 0, q otherwise
+                ca = a[2][0].single_atom()
+                if ca is not None and is_app(ca, ('le', 'lt')) and len(ca[2]) == 2 and all(isinstance(x, Poly) for x in ca[2]):
+                    d = ca[2][0] - ca[2][1]
+                    if d.is_zero():
+                        continue
+                    c, q = d.content()
+                    groups.setdefault(q.key, []).append((a, 1 if c > 0 else -1))
     keys = sorted(groups)
     if not keys:
         return [{}]
@@ -282,6 +291,21 @@ def minmax_cases(*values, limit=6):
         m = {}
         for k, ch in zip(keys, choice):
             for a, sgn in groups[k]:
+                if a[1] in ('where', 'ifexp'):
+                    # the comparison x <= y (x < y): true in the case x - y <= 0.  At x == y the two kinds of comparison
+                    # differ, so a selection is only resolved when both branches agree there or the case is strict enough:
+                    # the case "x - y >= 0" makes `lt` false for sure, the case "x - y <= 0" makes `le` true for sure
+                    ca = a[2][0].single_atom()
+                    x_ge_y = (sgn * ch) > 0
+                    if ca[1] == 'le' and not x_ge_y:
+                        m[a] = a[2][1]
+                    elif ca[1] == 'lt' and x_ge_y:
+                        m[a] = a[2][2]
+                    elif ca[1] == 'le':
+                        m[a] = a[2][2] if a[2][1] != a[2][2] else a[2][1]      # x > y (the tie belongs to the other case)
+                    else:
+                        m[a] = a[2][1]                                          # x < y
+                    continue
                 x, y = a[2]
                 x_ge_y = (sgn * ch) > 0          # sign of x - y under this case
                 big, small = (x, y) if x_ge_y else (y, x)
